@@ -27,6 +27,7 @@ import (
 	"os"
 	"strconv"
 	"strings"
+	"time"
 
 	"github.com/sarchlab/mgpusim/v4/amd/benchmarks"
 	"github.com/sarchlab/mgpusim/v4/amd/benchmarks/amdappsdk/bitonicsort"
@@ -51,6 +52,7 @@ import (
 	"github.com/sarchlab/mgpusim/v4/amd/benchmarks/shoc/fft"
 	"github.com/sarchlab/mgpusim/v4/amd/benchmarks/shoc/spmv"
 	"github.com/sarchlab/mgpusim/v4/amd/benchmarks/shoc/stencil2d"
+	"github.com/sarchlab/mgpusim/v4/amd/driver"
 	"github.com/sarchlab/mgpusim/v4/amd/samples/runner"
 
 	"verif/lib/benchcase"
@@ -100,6 +102,15 @@ func main() {
 
 	rand.Seed(c.Seed)
 
+	if us, _ := strconv.Atoi(os.Getenv("BENCHRUN_HOLD_DEQUEUE_US")); us > 0 {
+		// schedule perturbation: the simulation thread is held for a while each time it has
+		// handed a finished command back to the application
+		driver.VerifSetYieldHook(func(point string) {
+			if point == "queue-dequeued" {
+				time.Sleep(time.Duration(us) * time.Microsecond)
+			}
+		})
+	}
 	r := new(runner.Runner).Init()
 	if path := os.Getenv("BENCHRUN_DIGEST"); path != "" {
 		dg := attachDigester(r, path, c.Unified)
